@@ -22,6 +22,7 @@
 import Golib.Value.CmpLaws
 import Golib.Value.CmpExact
 import Golib.Value.Canon
+import Golib.Value.EqExact
 
 namespace C20
 open Value
@@ -165,6 +166,26 @@ theorem cmp_trans_floatfree (a b c : Value) (hwa : WFV a) (hwb : WFV b) (hwc : W
   (cmpV_Tr a b c hwa hwb hwc (noNaN_of_floatFree a hfa) (noNaN_of_floatFree b hfb) (noNaN_of_floatFree c hfc)
     hab hbc hac).1 h1 h2
 
+/-! ### exactness on scalars, transitivity under the weakest hypothesis -/
+
+/-- for every scalar type (null, bool, decimal, int, long, text hash, text, float, double, both
+    summaries): `Equals` holds **exactly** when the payloads are equal — the same number (a NaN equals
+    nothing, −0 = +0), the same bytes, for a summary the same sum and count.  No tolerance, no
+    coarser or finer relation. -/
+theorem eq_exact (a b : Value) (ha : scalar a = true) : eqV a b = true ↔ payloadEq a b :=
+  eqV_iff_payloadEq a b ha
+
+/-- … and `CompareTo` is 0 exactly then -/
+theorem cmp_zero_exact (a b : Value) (ha : scalar a = true) : cmpV a b = 0 ↔ payloadEq a b := by
+  rw [cmpV_zero_iff_eqV]; exact eqV_iff_payloadEq a b ha
+
+/-- transitivity of `Equals` for the whole value type, containers included (structural
+    induction), assuming only that the float **arrays** of the *middle* value hold no NaN; float
+    and double scalars and summary sums may be NaN anywhere (a NaN equals nothing, which is
+    transitive).  Narrows `eq_trans_partial`; `finding_D09_trans` shows the hypothesis is needed. -/
+theorem eq_trans_mid (a b c : Value) (hb : noArrNaN b = true) (h1 : eqV a b = true) (h2 : eqV b c = true) :
+    eqV a c = true := eqV_trans_mid a b c hb h1 h2
+
 /-! ### what `Equals` decides (link to C02) -/
 
 /-- on the types whose `Equals` is structural (null, bool, the integer types, text, text hash, blob,
@@ -257,6 +278,9 @@ example : Aligned (.map [([97], .dec 1), ([98], .imap [(5, .null)])]) (.map [([9
   unfold Aligned; decide +kernel
 example : Aligned (.map [([97], .dec 1)]) (.map [([97], .dec 1), ([98], .null)]) := by unfold Aligned; decide +kernel  -- sizes differ: no constraint
 example : mapFree (.list [.list [.dec 1, .af []], .text [1]]) = true := by decide +kernel
+example : scalar (.dsum 0 1 2 3) = true ∧ noArrNaN (.list [.f32 nan32w, .af [one32]]) = true := by decide +kernel
+example : payloadEq (.f32 0) (.f32 2147483648) ∧ ¬ payloadEq (.f32 one32) (.f32 (one32 + 1)) := by
+  unfold payloadEq; decide +kernel
 example : rigid (.list [.text [1], .ai [1, 2], .list [.null]]) = true := by decide +kernel
 example : canon (.list [.f32 2147483648, .lsum 1 2 3 4]) = .list [.f32 0, .lsum 1 2 0 0] := by rfl
 example : floatFree (.map [([1], .lsum 1 1 1 1)]) = true ∧ noSNaN (.af [nan32w]) = true := by decide +kernel
